@@ -131,6 +131,21 @@ func runC19(p *core.Prog, r *core.Report) {
 		callee := sx.StaticCallee(c)
 		return callee != nil && adders[callee]
 	}
+	// a size update written inline (`pw.size += n`) counts like a call of the adder
+	isInlineAdd := func(in ssa.Instruction) (ssa.Value, bool) {
+		st, ok := in.(*ssa.Store)
+		if !ok {
+			return nil, false
+		}
+		fa, ok := st.Addr.(*ssa.FieldAddr)
+		if !ok || sx.FieldOf(fa) != size {
+			return nil, false
+		}
+		if b, ok := st.Val.(*ssa.BinOp); ok && b.Op == token.ADD {
+			return b.Y, true
+		}
+		return nil, false
+	}
 	for _, name := range []string{"Write", "WriteString"} {
 		fn := methods[name]
 		if fn == nil {
@@ -168,14 +183,49 @@ func runC19(p *core.Prog, r *core.Report) {
 		}
 		fr, _ := count(isForward)
 		ar, _ := count(isAdd)
+		{
+			w := sx.Weights{Instr: func(in ssa.Instruction) sx.Range {
+				if c, ok := in.(ssa.CallInstruction); ok && isAdd(c) {
+					return sx.Range{Min: 1, Max: 1}
+				}
+				if _, ok := isInlineAdd(in); ok {
+					return sx.Range{Min: 1, Max: 1}
+				}
+				return sx.Range{}
+			}}
+			res := sx.Count(fn, fn.Blocks[0], w, nil)
+			tot := sx.Range{Min: sx.Sat, Max: 0}
+			for _, ret := range sx.Returns(fn) {
+				if rg, ok := res.Before(ret); ok {
+					tot = tot.Join(rg)
+				}
+			}
+			ar = tot
+		}
 		r.Check(fr.Is(1), "C19-R1", name+": one forwarding call per path", p.FuncPos(fn), "exactly one call of the wrapped writer on every path", fmt.Sprintf("forwarding calls per path in [%d,%d]", fr.Min, fr.Max))
 		r.Check(ar.Is(1), "C19-R1", name+": one size update per path", p.FuncPos(fn), "exactly one size update on every path to a return (including the error path)", fmt.Sprintf("size updates per path in [%d,%d] (3 = more): a short or failed write would not be counted, or counted twice", ar.Min, ar.Max))
 		// each update happens after the forwarding call, with its count
-		for i, a := range ad {
+		var addends []ssa.Value
+		var addPos []token.Pos
+		for _, a := range ad {
 			args := sx.Args(a)
-			okArg := len(args) >= 2
+			if len(args) >= 2 {
+				addends = append(addends, args[len(args)-1])
+			} else {
+				addends = append(addends, nil)
+			}
+			addPos = append(addPos, a.Pos())
+		}
+		sx.Instrs(fn, func(in ssa.Instruction) {
+			if v, ok := isInlineAdd(in); ok {
+				addends = append(addends, v)
+				addPos = append(addPos, in.Pos())
+			}
+		})
+		for i, av := range addends {
+			okArg := av != nil
 			if okArg {
-				for _, lf := range leaves(args[len(args)-1]) {
+				for _, lf := range leaves(av) {
 					e, isE := lf.(*ssa.Extract)
 					if !isE || e.Index != 0 {
 						okArg = false
@@ -187,7 +237,7 @@ func runC19(p *core.Prog, r *core.Report) {
 					}
 				}
 			}
-			r.Check(okArg, "C19-R1", fmt.Sprintf("%s: size update #%d adds the wrapped call's count", name, i), p.Pos(a.Pos()), "addend is result #0 of the forwarding call", "the value added to size is not the byte count reported by the wrapped writer")
+			r.Check(okArg, "C19-R1", fmt.Sprintf("%s: size update #%d adds the wrapped call's count", name, i), p.Pos(addPos[i]), "addend is result #0 of the forwarding call", "the value added to size is not the byte count reported by the wrapped writer")
 		}
 		// returns unchanged
 		for i, ret := range sx.Returns(fn) {
